@@ -300,6 +300,87 @@ def run(ctx, report: Report) -> None:
     from .e2etab import custom_isolation_table
     custom_isolation_table(ctx, r5)
 
+    # ---- R6 --------------------------------------------------------------------------------------------------
+    r6 = report.rule('C15-R6', 'every memo between compile() and its result is bounded and emptied by purge()', floor=1)
+    memo_census_rule(ctx, r6)
+
+    # ---- R7 (texts compiled by interpretation, bounded) -----------------------------------------------------------------
+    r7 = report.rule('C15-R7', 'what a pattern compiles to does not depend on the patterns compiled before it in the same process (bounded)', floor=10)
+    from .e2etab import compile_history_table
+    compile_history_table(ctx, r7)
+
+
+
+def memo_census_rule(ctx, rule):
+    """Every function of the package that memoises (functools.lru_cache / cache, as a decorator or applied to a function) and is
+    reachable from compile() has a positive bound and is cleared - `<name>.cache_clear()` - in a function reachable from purge()."""
+    from ..callgraph import CallGraph
+    src, inv = ctx.src, ctx.consts
+    cg = ctx.get('callgraph', lambda: CallGraph(ctx.types, src))
+    reach = cg.reachable(['__init__.compile'])
+    preach = cg.reachable(['__init__.purge'])
+    cleared = set()
+    for q in preach:
+        try:
+            mod, fn = src.func(q)
+        except Exception:
+            continue
+        for c in ast.walk(fn):
+            if isinstance(c, ast.Call) and isinstance(c.func, ast.Attribute) and c.func.attr == 'cache_clear':
+                base = c.func.value
+                name = base.attr if isinstance(base, ast.Attribute) else (base.id if isinstance(base, ast.Name) else None)
+                if name:
+                    cleared.add(name)
+    memos = []
+    for mn, mod in src.mods.items():
+        for q, fn in mod.functions.items():
+            for d in fn.decorator_list:
+                dn = call_name(d) if isinstance(d, ast.Call) else unparse(d)
+                if dn.split('.')[-1] in ('lru_cache', 'cache', 'cached_property'):
+                    memos.append((mn, q, fn, d))
+        # name = lru_cache(...)(function) at module level
+        for st in mod.tree.body:
+            if isinstance(st, ast.Assign) and isinstance(st.value, ast.Call) and isinstance(st.value.func, ast.Call) \
+                    and call_name(st.value.func).split('.')[-1] in ('lru_cache', 'cache') and len(st.targets) == 1 and isinstance(st.targets[0], ast.Name):
+                memos.append((mn, st.targets[0].id, st, st.value.func))
+    if not memos:
+        raise AnalysisError('no memoising function found in the package (the pattern cache is expected)')
+    for mn, q, node, d in memos:
+        full = f'{mn}.{q}'
+        on_path = full in reach or any(full == r or r.startswith(full + '.') for r in reach) or isinstance(node, ast.Assign)
+        dn = call_name(d) if isinstance(d, ast.Call) else unparse(d)
+        maxsize = 128 if dn.split('.')[-1] == 'lru_cache' else None       # functools defaults; cache() is unbounded
+        if isinstance(d, ast.Call):
+            for k in d.keywords:
+                if k.arg == 'maxsize':
+                    maxsize = inv.folder.try_ev(mn, k.value, default='?')
+            if d.args:
+                maxsize = inv.folder.try_ev(mn, d.args[0], default='?')
+        bounded = isinstance(maxsize, int) and not isinstance(maxsize, bool) and maxsize > 0
+        name = q.split('.')[-1]
+        is_cleared = name in cleared
+        # a memo of scalars (str -> str case folding) cannot be told from recomputation: values are compared by value and carry no
+        # structure; the rule is about memos that hold compiled structure
+        ret = getattr(node, 'returns', None)
+        names = {x.id for x in ast.walk(ret) if isinstance(x, ast.Name)} | {x.attr for x in ast.walk(ret) if isinstance(x, ast.Attribute)} if ret is not None else None
+        scalar = names is not None and names <= {'str', 'int', 'bool', 'float', 'bytes', 'None', 'tuple', 'frozenset', 'Optional'} \
+            and not any(isinstance(x, ast.Constant) and isinstance(x.value, str) for x in ast.walk(ret))
+        rule.instance({'memo': full, 'reachable_from_compile': on_path, 'maxsize': maxsize, 'bounded': bounded, 'cleared_by_purge': is_cleared,
+                       'holds_scalars_only': scalar}, key=full)
+        if not on_path or scalar:
+            continue
+        if names is None:
+            rule.note(f'{full}: the memoised function has no return annotation - whether it holds compiled structure is undecided')
+            continue
+        rule.obligation(bounded and is_cleared)
+        if maxsize == '?':
+            rule.note(f'{full}: the bound of the memo is not a constant of the package (undecided)')
+        elif not bounded:
+            rule.violation(f'{full} memo bound', src.mods[mn].where(node), f'{full} memoises results of compile() without a positive bound (maxsize={maxsize}): '
+                           f'the cache can hold more than its bound')
+        if not is_cleared:
+            rule.violation(f'{full} memo purge', src.mods[mn].where(node), f'{full} memoises (part of) what compile() returns and no function reachable from '
+                           f'purge() calls {name}.cache_clear(): purge() does not empty the cache, and what compile() returns after a purge is not a fresh parse')
 
 
 def cache_key_rule(ctx, r4):
